@@ -58,7 +58,7 @@ package ctrlflow
 //@     invariant forall k int :: 0 <= k && k < len(candidates) ==> candidates[k] != nil && len(candidates[k].Succs) > 0
 //@   loop 1
 //@     invariant len(candidates) > 0
-//@   unclaimed call#5:(*math/rand.Rand).Intn/requires because needs "every candidate block has a successor" preserved across in-place graph mutation (separation of the candidate list from the blocks' successor arrays); outside what this generator discharges
+//@   unclaimed (*math/rand.Rand).Intn/requires because needs "every candidate block has a successor" preserved across in-place graph mutation (separation of the candidate list from the blocks' successor arrays); outside what this generator discharges
 //@ end
 
 //@ func addTrashBlockMarkers
@@ -68,5 +68,5 @@ package ctrlflow
 //@     invariant forall k int :: 0 <= k && k < len(candidates) ==> candidates[k] != nil && len(candidates[k].Succs) > 0
 //@   loop 1
 //@     invariant len(candidates) > 0
-//@   unclaimed call#5:(*math/rand.Rand).Intn/requires because needs "every candidate block has a successor" preserved across in-place graph mutation (separation of the candidate list from the blocks' successor arrays); outside what this generator discharges
+//@   unclaimed (*math/rand.Rand).Intn/requires because needs "every candidate block has a successor" preserved across in-place graph mutation (separation of the candidate list from the blocks' successor arrays); outside what this generator discharges
 //@ end
